@@ -79,6 +79,8 @@ def site_alignment(ctx, s):
         else:
             if k in fresh_ok:
                 continue
+            if k == "observation_mask":
+                continue      # which rows are observed is C12's clause (and R2 here for the split); R1 is about the experiments themselves
             problems.append(f"{k} is a new value `{p[1][:70]}` (not a row selection of a source screen)")
     if len(descr) > 1:
         problems.append(f"per-row keywords use different sources/selectors: {sorted(map(str, descr))}")
@@ -89,6 +91,8 @@ def r1(ctx):
     sites = common.screen_sites(ctx)
     for s in sites:
         ctx.functions.add(s.f.qname)
+        if s.opaque:
+            raise AnalysisError(f"{s.site}: Screen(**kwargs) cannot be expanded; row alignment of this construction is undecided")
         problems, descr = site_alignment(ctx, s)
         ctx.check("R1", s.site, not problems, f"row-aligned over {sorted(map(str, descr))}", "; ".join(problems))
     return sites
@@ -277,11 +281,18 @@ def r3(ctx):
                     and attr_tail(e.func.value) == "subset" and isinstance(e.func.value.func.value, ast.Name)
                     and e.func.value.func.value.id in aliases):
                 continue
-            bad.append(U(e))
-        # no Screen(...) construction and no Screen.combine / concat inside a smoother
+            # alternative: Screen(rows of the input at an index vector of distinct row numbers)
+            alt = index_vector_return(ctx, f, param, e)
+            if alt is True:
+                continue
+            if isinstance(alt, str):
+                bad.append(alt)
+                continue
+            bad.append(U(e)[:90])
+        # no Screen.combine / concat inside a smoother (would re-introduce rows)
         for c in calls(f.node):
             t = attr_tail(c)
-            if t in ("Screen", "combine", "concat", "concatenate") and not (t == "concatenate"):
+            if t in ("combine", "concat") and not (isinstance(c.func, ast.Attribute) and U(c.func.value) == "np"):
                 bad.append(f"constructs rows via {U(c.func)}")
         # rebinding of the screen parameter only through chained smoothers
         for n in walk_own(f.node):
@@ -319,6 +330,55 @@ def r3(ctx):
     ctx.check("R3", f"{m.site()}::label", U(lab[0].targets[0].slice) == "self.selection_vector" and U(lab[0].value) in ("self.plate_name", "other.plate_name"),
               "relabels exactly the merged rows with an existing plate label",
               f"relabels rows `{U(lab[0].targets[0].slice)}` with `{U(lab[0].value)}`")
+
+
+def index_vector_return(ctx, f, param, e):
+    """True if `e` is Screen(<param>.<attr>[K] ...) row-aligned over one index vector K that provably holds distinct
+    row numbers of the input; a string (reason) if K can hold a row twice; None if the form is not recognised"""
+    sites = [s for s in common.screen_sites(ctx) if s.f.qname == f.qname and s.call is e]
+    if len(sites) != 1 or sites[0].opaque:
+        return None
+    problems, descr = site_alignment(ctx, sites[0])
+    if problems or len(descr) != 1:
+        return None
+    (root, sel), = descr
+    if root != param or sel is None or not sel.isidentifier():
+        return None
+    K = sel
+    kd = [n for n in walk_own(f.node) if isinstance(n, ast.Assign) and U(n.targets[0]) == K]
+    lst = None
+    for n in kd:
+        if isinstance(n.value, ast.Call) and call_name(n.value) == "np.concatenate" and isinstance(n.value.args[0], ast.Name):
+            lst = n.value.args[0].id
+    if lst is None:
+        return None
+    apps = [c for c in calls(f.node, tail="append") if U(c.func.value) == lst]
+    if not apps:
+        return None
+    par = enclosing_map(f.node)
+    for c in apps:
+        lp = c
+        while lp in par and not isinstance(lp, ast.For):
+            lp = par[lp]
+        if not (isinstance(lp, ast.For) and U(lp.iter) == f"{param}.plates"):
+            return None
+        pv = U(lp.target)
+        lenv = {n.targets[0].id: n.value for n in walk_own(lp) if isinstance(n, ast.Assign) and isinstance(n.targets[0], ast.Name)}
+        v = inline(c.args[0], lenv)
+        while isinstance(v, ast.Call) and call_name(v) in ("np.sort", "np.array", "np.asarray"):
+            v = v.args[0]
+        own = (f"np.flatnonzero({pv}.selection_vector)", f"np.arange({param}.size)[{pv}.selection_vector]", f"np.where({pv}.selection_vector)[0]")
+        t = U(v).replace(" ", "")
+        if t in own:
+            continue
+        if isinstance(v, ast.Call) and attr_tail(v) == "choice" and U(v.args[0]).replace(" ", "") in own:
+            rep = arg(v, 2, "replace")
+            if rep is not None and U(rep) == "False":
+                continue
+            return (f"rows kept for a sub-sampled plate are `{U(c.args[0])[:70]}`: drawn WITH replacement, so one experiment can be emitted twice "
+                    f"while another is dropped")
+        return None
+    return True
 
 
 def chained_smoothers(f, param):
